@@ -85,7 +85,21 @@ def _run_job(job):
     return out
 
 
+def _child(job, conn):
+    try:
+        conn.send(_run_job(job))
+    except BaseException as e:  # noqa
+        try:
+            conn.send([ObResult(name=job.name + "/crash", status=R.FAULT, prop=job.prop, detail=f"job process failed: {type(e).__name__}: {e}"[:2000])])
+        except Exception:
+            pass
+    finally:
+        conn.close()
+
+
 def run_jobs(jobs, workers=None):
+    """one process per job (fork), at most `workers` at a time.  A job that ignores its own alarm (stuck inside native code, e.g. huge integer
+    arithmetic or a solver call) is KILLED a grace period after its wall-clock budget and reported undecided: a check can never hang."""
     workers = workers or min(16, os.cpu_count() or 4)
     jobs = sorted(jobs, key=lambda j: -j.weight)
     results = []
@@ -93,10 +107,65 @@ def run_jobs(jobs, workers=None):
         for j in jobs:
             results.extend(_run_job(j))
         return results
+    # import the engines once, before forking: every job process inherits them
+    try:
+        import numpy, z3  # noqa: F401
+        import qverif.symtwin.verify, qverif.pyvc.verify, spec.qspec  # noqa: F401
+    except Exception:
+        pass
     ctx = mp.get_context("fork")
-    with ctx.Pool(processes=workers, maxtasksperchild=8) as pool:
-        for out in pool.imap_unordered(_run_job, jobs, chunksize=1):
-            results.extend(out)
+    pending = list(jobs)
+    running = []          # (process, parent_conn, job, start time)
+    grace = 60.0
+    while pending or running:
+        while pending and len(running) < workers:
+            job = pending.pop(0)
+            pc, cc = ctx.Pipe(duplex=False)
+            p = ctx.Process(target=_child, args=(job, cc), daemon=True)
+            p.start()
+            cc.close()
+            running.append((p, pc, job, time.time()))
+        still = []
+        progressed = False
+        for p, pc, job, t0 in running:
+            got = None
+            try:
+                if pc.poll(0):
+                    got = pc.recv()
+            except (EOFError, OSError):
+                got = [ObResult(name=job.name + "/crash", status=R.FAULT, prop=job.prop, detail="job process ended without a result")]
+            if got is not None:
+                results.extend(got)
+                p.join(5)
+                if p.is_alive():
+                    p.kill()
+                pc.close()
+                progressed = True
+                continue
+            if not p.is_alive():
+                # ended without sending (killed by the OS, e.g. out of memory)
+                try:
+                    got = pc.recv() if pc.poll(0.2) else None
+                except (EOFError, OSError):
+                    got = None
+                results.extend(got if got is not None else
+                               [ObResult(name=job.name + "/undecided", status=R.UNDECIDED, prop=job.prop, extra=dict(job=job.name),
+                                         detail=f"job process ended without a result (exit code {p.exitcode})")])
+                pc.close()
+                progressed = True
+                continue
+            if time.time() - t0 > job.timeout_s + grace:
+                p.kill()
+                p.join(5)
+                pc.close()
+                results.append(ObResult(name=job.name + "/timeout", status=R.UNDECIDED, prop=job.prop, extra=dict(job=job.name, job_seconds=round(time.time() - t0, 1)),
+                                        detail=f"job exceeded its wall-clock budget of {job.timeout_s}s and did not react to its alarm: killed"))
+                progressed = True
+                continue
+            still.append((p, pc, job, t0))
+        running = still
+        if not progressed:
+            time.sleep(0.02)
     return results
 
 
